@@ -80,6 +80,17 @@ def denseItems : Val → Option (List Val)
   | .lazy kvs n => some (expand kvs n)
   | _ => none
 
+/-- `"key" == value` (a plain string against any value) -/
+def strEqVal (a : String) : Val → Bool
+  | .str c => a == c
+  | .cat c _ => a == c
+  | _ => false
+
+/-- `all(map(eq, SparseDense, dict))` iterates the dict's *keys* (and a str's characters) -/
+def keysMatchLazy (kvs : List (Nat × Val)) : Nat → List String → Bool
+  | _, [] => true
+  | i, k :: ks => strEqVal k (lazyAt kvs i) && keysMatchLazy kvs (i + 1) ks
+
 /-! ### Python `==`
 
 `Categorical == str` compares the strings; `list != tuple`; a `SparseDense` equals any list /
@@ -89,8 +100,14 @@ mutual
 def pyEq : Val → Val → Bool
   | .none, b => match b with | .none => true | _ => false
   | .num a, b => match b with | .num c => a == c | _ => false
-  | .str a, b => match b with | .str c => a == c | .cat c _ => a == c | _ => false
-  | .cat a _, b => match b with | .str c => a == c | .cat c _ => a == c | _ => false
+  | .str a, b => match b with
+    | .str c => a == c | .cat c _ => a == c
+    | .lazy kvs n => a.length == n && keysMatchLazy kvs 0 (a.toList.map String.singleton)
+    | _ => false
+  | .cat a _, b => match b with
+    | .str c => a == c | .cat c _ => a == c
+    | .lazy kvs n => a.length == n && keysMatchLazy kvs 0 (a.toList.map String.singleton)
+    | _ => false
   | .list xs, b =>
     match b with
     | .list ys => pyEqL xs ys
@@ -104,11 +121,16 @@ def pyEq : Val → Val → Bool
   | .dict kvs, b =>
     match b with
     | .dict kvs' => kvs.length == kvs'.length && pyEqD kvs kvs'
+    | .lazy kvs' n => kvs.length == n && keysMatchLazy kvs' 0 (kvs.map (·.1))
     | _ => false
   | .lazy kvs n, b =>
     match denseItems b with
     | some ys => ys.length == n && pyEqZ kvs ys && zerosMatch kvs 0 ys
-    | none => false
+    | none => match b with
+      | .dict d => d.length == n && keysMatchLazy kvs 0 (d.map (·.1))
+      | .str a => a.length == n && keysMatchLazy kvs 0 (a.toList.map String.singleton)
+      | .cat a _ => a.length == n && keysMatchLazy kvs 0 (a.toList.map String.singleton)
+      | _ => false
 def pyEqL : List Val → List Val → Bool
   | [], ys => ys.isEmpty
   | x :: xs, ys => match ys with | y :: ys' => pyEq x y && pyEqL xs ys' | [] => false
@@ -707,6 +729,16 @@ def optPyNe (new old : Option (List Val)) : Bool :=
   | some n, some o => !pyEqList n o
   | _, _ => false
 
+/-- the repaired filters keep the logged action "the same member": if it is a member of the old
+actions, its new form is the corresponding member of the new actions -/
+def mapMember (olds news : Option (List Val)) (a fallback : Option Val) : Option Val :=
+  match a, olds, news with
+  | some x, some o, some n =>
+    match indexOf o x with
+    | some k => (match n[k]? with | some y => some y | none => fallback)
+    | none => fallback
+  | _, _, _ => fallback
+
 /-! ## Repr -/
 
 /-- the two ways Repr feeds action lists to EncodeCatRows -/
@@ -776,8 +808,12 @@ def reprPlans (cfg : Cfg) (cc ca : Option Mode) (s : List Inter) : Except Err (L
           else .ok (s.map (·.action))
         match actE with
         | .error e => .error e
-        | .ok acts =>
+        | .ok acts0 =>
           let iter := ca.isSome && hasActions
+          let acts := if cfg.fixReprLogged && iter && hasAction then
+              (List.range s.length).map fun t =>
+                mapMember (s.getD t default).actions (actss.getD t none) (s.getD t default).action (acts0.getD t none)
+            else acts0
           let rC := firstCallable (·.rewards) s
           let fC := firstCallable (·.feedbacks) s
           let pol := fun t =>
@@ -818,7 +854,11 @@ def flattenPlans (cfg : Cfg) (s : List Inter) : Except Err (List Plan) :=
           else .ok (s.map (·.action))
         match actE with
         | .error e => .error e
-        | .ok acts =>
+        | .ok acts0 =>
+          let acts := if cfg.fixFlattenLogged && hasActions && hasAction then
+              (List.range s.length).map fun t =>
+                mapMember (s.getD t default).actions (actss.getD t none) (s.getD t default).action (acts0.getD t none)
+            else acts0
           let rC := firstCallable (·.rewards) s
           let fC := firstCallable (·.feedbacks) s
           let pol := fun t =>
@@ -1015,14 +1055,7 @@ def noisePlans (cfg : Cfg) (nc na : Option NoiseSpec) (oracle : List Rat) (s : L
                | none => .ok (orc1, none)) with
         | .error e => .error e
         | .ok (orc2, acts) =>
-          let act : Option Val :=
-            if cfg.fixNoiseLogged then
-              match I.action, I.actions, acts with
-              | some x, some as, some as' => (match indexOf as x with
-                  | some j => (match as'[j]? with | some y => some y | none => some x)
-                  | none => some x)
-              | x, _, _ => x
-            else I.action
+          let act : Option Val := if cfg.fixNoiseLogged then mapMember I.actions acts I.action I.action else I.action
           let polR := match I.rewards with
             | some _ => if rC then Policy.generic else Policy.toList
             | none => Policy.keep
@@ -1175,9 +1208,10 @@ def targetHypB (p : Policy) (r : Option Rew) (oldActs newActs : List Val) : Bool
     | .toList => true
     | .wrapSeq => distinctB newActs
     | .generic => distinctB newActs
-    | .reprStyle _ =>
+    | .reprStyle fixD =>
       match r with
       | .binary am _ => distinctB newActs && distinctB oldActs && oldActs.any (fun a => Val.same a am)
+      | .discrete _ rs _ _ => distinctB newActs && (fixD || obsEq (obsOf r oldActs) (rs.map .ok))
       | _ => distinctB newActs
 
 /-- the logged action is a member of the old actions, and its new form is, structurally, the
